@@ -118,3 +118,36 @@ def check_copy_isolation(repo, chk):
     chk.instance("L4-copy", "data_replace works on a copy of lazy data (`.copy()` call present): %s" % uses_copy)
     if not uses_copy:
         chk.violation("L4-copy", dr.key, "no-copy", "data_replace no longer copies lazy data before setting the leaf: the caller's sample is modified", file=DATA, line=dr.lineno)
+
+
+def check_merge_identity(repo, chk):
+    """a merged lazy sample is another sample: its on-disk cache identity (cached_file, name) differs from its parts'"""
+    from ..model import AnalysisError
+    from ..sym import SelfObj, Translator, Unmodelled
+
+    chk.rule("M4-name", "LazyCall.merge interpreted on two lazy samples that share a cache directory: the merged sample's cache identity (cached_file + name, from which as_dataset builds the file name of its tf.data disk cache) differs from that of each part - otherwise the merged data + background sample replays the cache written for the plain data sample (or vice versa), i.e. other events")
+    mod = repo.mod(DATA)
+    cls = mod.classes.get("LazyCall")
+    if cls is None or "merge" not in cls.methods:
+        raise AnalysisError("anchor vanished: LazyCall.merge")
+    keys = {c.key for c in mod.classes.values()}
+
+    def mk(name, x):
+        return SelfObj(cls, {"f": "F", "x": x, "args": (), "kwargs": {}, "extra": {"w": "W_" + name}, "batch_size": None, "cached_batch": {}, "cached_file": "dir/", "name": name, "prefetch": -1})
+
+    a, b = mk("data", "XA"), mk("bg", "XB")
+    hooks = {"construct": keys, "allow_attr_store": True, "builtin.isinstance": lambda tr_, a_, k_, n_: False}
+    for g in repo.func_by_name.get("data_merge", []):
+        hooks[g.key] = lambda tr_, a_, k_, n_: ("merged",) + tuple(str(x) for x in a_)
+    try:
+        ret = Translator(repo, hooks=hooks, max_depth=4).call_fn(cls.methods["merge"], [b], {}, self_obj=a)
+    except Unmodelled as e:
+        raise AnalysisError("LazyCall.merge cannot be interpreted: %s" % e)
+    if not isinstance(ret, SelfObj):
+        raise AnalysisError("LazyCall.merge does not return a lazy sample in the interpretation")
+    ident = (ret.attrs.get("cached_file"), ret.attrs.get("name"))
+    clash = [p.attrs["name"] for p in (a, b) if (p.attrs["cached_file"], p.attrs["name"]) == ident]
+    ok = not clash and isinstance(ident[1], str)
+    chk.oblige("M4-name", "merge(data, bg): cache identity %s differs from ('dir/', 'data') and ('dir/', 'bg')" % (ident,), ok)
+    if not ok:
+        chk.violation("M4-name", cls.methods["merge"].key, "cache-identity", "the merged sample keeps the cache identity %s of its part `%s`: with cached_lazy_call configured, the merged data + background sample and the plain sample read and write the same tf.data cache file, so one of them is served the other's events" % (ident, clash[0] if clash else "?"), file=DATA, line=cls.methods["merge"].lineno)
